@@ -1,4 +1,4 @@
-\* exhaustive (thorough): repaired, all counts 1..4 x 1..4, both namings, depth 13
+\* exhaustive (thorough): repaired design with up to three concurrent collection starts and starts of collections dropped upstream (lookup / connect / commit under one lock), counts 1..4 x 1..4, depth 8
 SPECIFICATION Spec
 CHECK_DEADLOCK FALSE
 VIEW view
@@ -9,12 +9,12 @@ CONSTANTS
   MaxT = 4
   Pairs <- AllPairs
   Namings = {"distinct", "same"}
-  MaxOps = 13
+  MaxOps = 8
   HandoffChecksCapacity = TRUE
   ForwardCountedOnce = FALSE
   SourceKeyFromMapping = TRUE
   WithFail = FALSE
-  MaxFlight = 0
+  MaxFlight = 3
   OfferAtomic = TRUE
-  WithDropped = FALSE
+  WithDropped = TRUE
   DroppedChecksQuota = TRUE
